@@ -497,3 +497,67 @@ def iptable_part(ctx):
         outside='add_cidr / remove_cidr text forms (CIDR parsing is in the Kani part); tables built by more operations than the bound',
         assumptions=['BTreeMap modelled as an association list kept sorted by the crate\'s own <Obm as Ord>::cmp MIR; insert replaces the value on Equal (std semantics)',
                      'reference = declarative longest-prefix match over the keys alive after the operation sequence'])
+
+
+IPGEN_REPLAY = r'''
+use super::*;
+fn avail(g: &IpGenerator, w: u32) -> bool { g.available_ranges.iter().any(|r| r.start.to_u32() <= w && w <= r.end.to_u32()) }
+fn mask(len: u32) -> u32 { if len == 0 { 0 } else { (!0u32) << (32 - len) } }
+fn netof(addr: u32, len: u32) -> Ipv4Net { Ipv4Net::new(Ipv4Address::from(addr), Ipv4Mask::from_bitcount(len)) }
+fn inside(n: &Ipv4Net, w: u32) -> bool { n.id().to_u32() <= w && w <= n.broadcast().to_u32() }
+'''
+
+
+def ipgen_native_replay(v):
+    from mirx import native
+    u = v['unit']
+    vals = v.get('values', {})
+    g = lambda k, d=0: int(vals.get(k, d))
+    w = g('w') & 0xffffffff
+    L = ['#[test]\nfn mirx_replay_0() {', '    println!("\\nREPLAY-BEGIN mirx_replay_0");', '    let mut bad: Vec<String> = Vec::new();',
+         f'    let pool = netof({g("pool_addr") & 0xffffffff}, {min(32, g("pool_len", 24))}); let w: u32 = {w};',
+         '    let mut events: Vec<(Ipv4Net, bool)> = Vec::new();   // (net, true = made available again / false = taken or blocked)']
+    if u['ctor'] == 'new_sub':
+        L.append('    let mut gen = IpGenerator::new_sub(pool); let base_ref = |x: u32| inside(&pool, x);')
+    else:
+        L.append('    let mut gen = IpGenerator::new_sub_no_ends(pool); let base_ref = |x: u32| pool.id().to_u32() < x && x < pool.broadcast().to_u32();')
+    L.append('    let refav = |events: &Vec<(Ipv4Net, bool)>, x: u32| { let mut a = base_ref(x); for (n, back) in events { if inside(n, x) { a = *back; } } a };')
+    L.append('    for x in [w, pool.id().to_u32(), pool.broadcast().to_u32(), pool.id().to_u32().wrapping_add(1), pool.broadcast().to_u32().wrapping_sub(1)] { if avail(&gen, x) != refav(&events, x) { bad.push(format!("after constructor: address {} available={} expected={}", x, avail(&gen, x), refav(&events, x))); } }')
+    L.append('    let mut held: Vec<Ipv4Net> = Vec::new();')
+    for i, kind in enumerate(u['ops']):
+        if kind in ('fetch_ip', 'fetch_net'):
+            ml = 32 if kind == 'fetch_ip' else min(32, g(f'm{i}', 30))
+            call = 'gen.fetch_ip().map(Ipv4Net::new_1)' if kind == 'fetch_ip' else f'gen.fetch_net(Ipv4Mask::from_bitcount({ml}))'
+            L.append(f'    {{ let before = events.clone(); match {call} {{')
+            L.append(f'        Some(n) => {{ for x in [n.id().to_u32(), n.broadcast().to_u32(), w] {{ if inside(&n, x) && !refav(&before, x) {{ bad.push(format!("step {i}: handed out unavailable address {{}}", x)); }} }}')
+            L.append(f'                     if n.mask().to_u32() != mask({ml}) {{ bad.push("step {i}: wrong mask".into()); }} events.push((n, false)); held.push(n); }}')
+            L.append(f'        None => {{ let b: u32 = {g(f"base{i}") & 0xffffffff}; let hm = !mask({ml}); if b & hm == 0 && gen.available_ranges.iter().any(|r| r.start.to_u32() <= b && (b | hm) <= r.end.to_u32()) {{ bad.push("step {i}: None although space left".into()); }} }}')
+            L.append('    } }')
+        elif kind == 'block':
+            L.append(f'    {{ let n = netof({g(f"blk{i}_addr") & 0xffffffff}, {min(32, g(f"blk{i}_len", 28))}); gen.block_subnet(n); events.push((n, false)); }}')
+        elif kind == 'return':
+            L.append('    if !held.is_empty() { let n = held.remove(0); gen.return_subnet(n); events.push((n, true)); }')
+        L.append(f'    if avail(&gen, w) != refav(&events, w) {{ bad.push(format!("after step {i}: address {{}} available={{}} expected={{}}", w, avail(&gen, w), refav(&events, w))); }}')
+    L.append('    println!("OP 0 RESULT {}", if bad.is_empty() { "AGREE".to_string() } else { bad.join(" | ") });')
+    L.append('}')
+    out, rc = native.run_shim_tests(IPGEN_REPLAY + '\n'.join(L), module='ip_generator.rs', test_filter='mirx_replay_0')
+    lines = native.op_lines(out)
+    if not lines:
+        if 'panicked' in out:
+            return ('panic' in v['key']), 'native run panicked: ' + out[out.find('panicked'):][:200]
+        return False, 'native replay did not run: ' + out[-400:]
+    return ('AGREE' not in lines[0]), lines[0]
+
+
+def ipgen_part(ctx):
+    from mirx import ipspec
+    return generic_part(
+        ctx, 'ipgenerator-vs-set-reference', ipspec.gen_units(ctx.tier), ipspec.worker_gen,
+        unit_name=lambda u: u['ctor'] + (' ; ' + ' ; '.join(u['ops']) if u['ops'] else ' (constructor only, any mask length)'),
+        unit_desc='pool = symbolic subnet; operations with symbolic masks / networks; set equalities over all 2^32 addresses via a free witness address',
+        replay_fn=ipgen_native_replay,
+        bounds='constructors new_sub / new_sub_no_ends for every pool (address 32-bit, mask length 0..=32 symbolic); every sequence of 3 (quick) / 4 (thorough) operations over fetch_ip, '
+               'fetch_net(mask length 26..=32 symbolic), block_subnet(symbolic network /24../32), return_subnet(of something held) on pools /22../32; witness address symbolic',
+        outside='return of networks that are not held (the property only speaks about returns of held addresses); pools larger than /22 for operation sequences; '
+                'the DHCP message exchange (async transport) - only the generator, which every DHCP lease goes through under the server\'s write lock, is decided',
+        assumptions=['BTreeSet modelled as a list kept sorted by the derived <IpRange as Ord>::cmp MIR', 'ip_generator.rs is compiled through a shim crate (#[path]-style copy next to a path dependency on elvis-core)'])
